@@ -7,6 +7,7 @@ import Ztr.Model.Channel
 import Ztr.Model.Suites
 import Ztr.Model.Runner
 import Ztr.Model.Bytecode
+import Ztr.Model.Threads
 /-!
 Line protocol between the Python harness and the executable model: one JSON object per line in,
 one JSON object per line out.  `op` selects the model component.  Unknown or malformed requests are
@@ -340,6 +341,20 @@ def opBytecode (j : Json) : Except String Json := do
   let r := Ztr.Bytecode.deletions keep usec (fun n => ignore.contains n) roots
   return Json.mkObj [("deleted", Json.arr (r.map jNatss).toArray)]
 
+/-- `threads`: history = list of ["start", uid, ident, ignored] | ["finish", uid] | ["testStart"] | ["testStop"] -/
+def opThreads (j : Json) : Except String Json := do
+  let h ← (← J.arr! j "history").toList.mapM (fun (x : Json) => do
+    let a ← x.getArr?
+    let tag ← a[0]!.getStr?
+    match tag with
+    | "start" => return Ztr.Threads.HEv.start { uid := ← a[1]!.getNat?, ident := ← a[2]!.getNat?, ignored := ← a[3]!.getBool? }
+    | "finish" => return .finish (← a[1]!.getNat?)
+    | "testStart" => return .testStart
+    | "testStop" => return .testStop
+    | _ => throw s!"bad history tag {tag}")
+  let r := Ztr.Threads.run h
+  return Json.mkObj [("reports", jNatss r.reports), ("spec", jNatss r.spec)]
+
 def dispatch (j : Json) : Except String Json := do
   let op ← J.str! j "op"
   match op with
@@ -348,6 +363,7 @@ def dispatch (j : Json) : Except String Json := do
   | "shuffle" => opShuffle j
   | "sccs" => opSccs j
   | "bytecode" => opBytecode j
+  | "threads" => opThreads j
   | "world" => opWorld j
   | "proto" => opProto j
   | "suites" => opSuites j
